@@ -6,6 +6,7 @@ import PdModel.Proto
 * `starttag tag name value` (docutils start tag with one attribute)   → `ok <s'>`
 * `sigdefault s` (`flatten(format_signature(f))` for `def f(a=<str s>)`), `quote s`, `url <0|1> page (anchor|-)`,
   `taglinkhref page url`, `starttagclass tag v`, `starttaghref v`, `valididcss s`   → `ok <s'>`
+* `ismath <tree>` (`_is_math_html` on the parsed fragment) → `true|false`; `sigintrospected repr` → `ok <s'>`
 * `unescape s`                                                 → `ok <s'>` | `malformed`
 * `html2stan s`  (markup-free html → `flatten(html2stan(s))`)  → `ok <s'>` | `SAXParseException`
 * `doublepath s` (text → docutils `encode` → `html2stan` → flatten) → `ok <s'>` | `SAXParseException`
@@ -134,6 +135,11 @@ def handle (args : List String) : String :=
     | _, _ => "bad-op"
   | "starttaghref" :: r => str1 (fun s => okStr (starttagHref s)) r
   | "valididcss" :: r => str1 (fun s => okStr (validIdentifierCss s)) r
+  | "ismath" :: toks =>
+    match parseTree (toks.length + 1) toks with
+    | some (t, []) => showB (isMathHtml t)
+    | _ => "bad-op"
+  | "sigintrospected" :: r => str1 (fun s => okStr (formatSigIntrospected s)) r
   | "sanitise" :: r => str1 (fun s => okStr (sanitise true s)) r
   | "sanitiseold" :: r => str1 (fun s => okStr (sanitise false s)) r
   | "literal" :: r => str1 (fun s => match interpolatedLiteral s with
